@@ -97,6 +97,13 @@ def _comment():
     return _mk(nodes, marks)
 
 
+def _footnote():
+    # an inline node that has content *and* is an atom (is_atom and is_leaf disagree)
+    nodes = dict(_basic_nodes)
+    nodes["footnote"] = {"group": "inline", "inline": True, "content": "text*", "atom": True}
+    return _mk(nodes, _basic_marks)
+
+
 _BUILDERS = {
     "basic": lambda: basic_schema,
     "list": lambda: list_schema,
@@ -107,6 +114,7 @@ _BUILDERS = {
     "strict": _strict,
     "docmarks": _docmarks,
     "comment": _comment,
+    "footnote": _footnote,
 }
 NAMES = list(_BUILDERS)
 _cache = {}
